@@ -406,6 +406,7 @@ func runC03(c *report.Ctx) {
 	ruleEngineFlagsPerInput(c)
 	ruleCryptoKeySealing(c)
 	ruleUnlockFlagFollowsHash(c)
+	ruleReturnedBlockWasDecoded(c)
 	ruleSignErrorReturned(c)
 }
 
